@@ -35,7 +35,7 @@ REGISTRY = dict(
           "assembly lines regenerated from the train() methods (incl. the entropy signs, 1 -+ clip_range, the value-clip bound). Tie: per-optimizer-step correspondence on real tiny training runs (loss, dL/d outputs, targets, pre-clip and at-step parameter "
           "gradients, learning rate). Partial: torch autograd through the networks and the optimizer arithmetic are trusted; only SB3's loss assembly, batch wiring, clipping and lr application are decided."),
     note=("Axioms reported by Print Assumptions for Props/C07.v: ClassicalDedekindReals.sig_forall_dec, ClassicalDedekindReals.sig_not_dec, FunctionalExtensionality.functional_extensionality_dep, "
-          "Classical_Prop.classic (Coq standard library real numbers) for the derivative / transfer theorems; 12 of the 22 theorems depend on them; the 10 theorems over Q (fragments, rollout/advantage normalisation, learning-rate application) are closed under the global context. "
+          "Classical_Prop.classic (Coq standard library real numbers) for the derivative / transfer theorems; 12 of the 24 theorems depend on them; the 12 theorems over Q (fragments, rollout/advantage normalisation, learning-rate application) are closed under the global context. "
           "Trusted: Coq 8.16.1 kernel (vm_compute for the Q twins, no native_compute), Coquelicot, translate/py2coq.py + specs/loss.py, harness/c07.py (hooks), Python/torch autograd and optimizers. "
           "Not verified: float32 rounding (rel 1e-3 / abs 1e-6), behaviour exactly at the kinks (ratio = 1 +- clip, |v - v_old| = clip_vf, |td error| = 1, equal critics)."),
     technique="machine-checked proof in Coq over R (Coquelicot is_derive) + executable Q twins (vm_compute) + regenerated-fragment interface lemmas + per-gradient-step differential correspondence",
